@@ -540,6 +540,8 @@ package dag
 //@ func (SourceTXKeyResolver).ResolvePublicKey
 //@   prop C06 C17
 //@   assume-benign
+// while the referenced transactions are tried, every resolve so far answered "not found" (any other error is final)
+//@   loop 1 invariant !did(call resolvePublicKey #1) || ret(call resolvePublicKey #1).1 == resolver.ErrNotFound
 //@   call resolvePublicKey #1 requires [resolved-as-of-a-referenced-transaction] arg(0) == r.Resolver && arg(1) == kid && arg(2).SourceTransaction == &h
 //@        && arg(2).ResolveTime == nil && arg(2).Hash == nil && !arg(2).AllowDeactivated
 //@   ensures [no-key-without-a-resolve-by-this-call] isNilIface(result.1) ==> did(call resolvePublicKey #1) && isNilIface(ret(call resolvePublicKey #1).1)
